@@ -153,6 +153,8 @@ def run(ctx):
     import roles as _roles
     _roles.rule_R_ROLE(ctx, modules=('conversion::string::impl_enum::parser', 'conversion::string::impl_lexical::parser', 'conversion::string::impl_enum::macros', 'conversion::string::impl_lexical::macros'))
     _roles.rule_A_NAMES(ctx, modules=('conversion::string::impl_enum::parser', 'conversion::string::impl_lexical::parser', 'conversion::string::impl_enum::macros', 'conversion::string::impl_lexical::macros'))
+    import lskel as _lskel
+    _lskel.rule_L_SKELETON(ctx, which=('lexical',), floor=10)
     ctx.undecided = ["that removing ALL spaces never glues two tokens for every value (the copula look-ahead and identifier classes make "
                      "this value-dependent)", "the macro's whitespace stripping is an instance of `remove all spaces` and has no separate rule"]
     ctx.assumptions = ["the flag correlation modelled by the typestate (ok = match result {Ok=>true,Err=>false}) is the only one the parser's macros create"]
